@@ -1,17 +1,174 @@
-(* Props/C05.v -- property C05 (provisional instance; the general theorems are being added) *)
-From Coq Require Import NArith List.
-From RP Require Import Base.Bits Gen.GenPerm Model.Codec Model.Iso Spec.SpecIso.
+(* Props/C05.v -- property C05: suit-isomorphism canonicalisation (src/cards/permutation.rs,
+   src/cards/isomorphism.rs) is a faithful, invariant, idempotent canonical form.
+   Statements use only Base/ Gen/ Model/ Spec/ definitions; proofs live in Proofs/C05_*.v. *)
+From Coq Require Import NArith List Bool.
+From RP Require Import Base.Bits Gen.GenPerm Model.Codec Model.Evaluator Model.Iso.
+From RP Require Import Spec.SpecCodec Spec.SpecIso Spec.SpecIsoWf.
+From RP Require Proofs.C05_Bits Proofs.C05_Canon Proofs.C05_Examples.
 Import ListNotations.
 Open Scope N_scope.
-Definition c (r s : N) : N := 4 * r + s.
-(* pocket 2s Ks; boards 2d 5h 8c Tc Th and 2h 5c 8d Tc Td (unit test super_symmetry) *)
-Definition ex_a := mkObs (mask_of_bits [c 0 3; c 11 3]) (mask_of_bits [c 0 1; c 3 2; c 6 0; c 8 0; c 8 2]).
-Definition ex_b := mkObs (mask_of_bits [c 0 3; c 11 3]) (mask_of_bits [c 0 2; c 3 0; c 6 1; c 8 0; c 8 1]).
-Theorem C05_super_symmetry_instance :
-  canon Standard ex_a = canon Standard ex_b /\ canon Standard ex_a <> None /\
-  forallb (fun p => match permute Standard p ex_a with
-                    | Some o => match canon Standard o, canon Standard ex_a with
+
+(* ---------- 1. L0 -> spec: shift-and-mask is the mathematical relabeling ---------- *)
+Theorem C05_image_is_relabel : forall d p h, In p EXHAUST -> N.land h (hand_mask d) = h ->
+  image d p h = Some (relabel_hand p h).
+Proof. exact C05_Bits.C05_image_is_relabel. Qed.
+Print Assumptions C05_image_is_relabel.
+Example C05_image_is_relabel_hyp :
+  In C05_Examples.ex_perm EXHAUST /\
+  N.land (public C05_Examples.ex_std) (hand_mask Standard) = public C05_Examples.ex_std /\
+  N.land (public C05_Examples.ex_short) (hand_mask Short) = public C05_Examples.ex_short.
+Proof. exact (conj C05_Examples.ex_perm_in C05_Examples.ex_hand_in_mask). Qed.
+
+(* card (rank r, suit s) is in h  iff  card (rank r, suit p s) is in the image *)
+Theorem C05_image_testbit : forall d p h v r s, In p EXHAUST -> N.land h (hand_mask d) = h ->
+  image d p h = Some v -> s < 4 ->
+  N.testbit v (4 * r + perm_map p s) = N.testbit h (4 * r + s).
+Proof. exact C05_Bits.C05_image_testbit. Qed.
+Print Assumptions C05_image_testbit.
+
+Theorem C05_permute_is_relabel : forall d p o, In p EXHAUST -> wf_obs_d d o ->
+  permute d p o = Some (relabel_obs p o) /\ wf_obs_d d (relabel_obs p o).
+Proof. exact C05_Bits.C05_permute_is_relabel. Qed.
+Print Assumptions C05_permute_is_relabel.
+Example C05_wf_obs_d_hyp :
+  wf_obs_d Standard C05_Examples.ex_std /\ wf_obs_d Short C05_Examples.ex_short /\
+  wf_obs_d Standard C05_Examples.ex_flop /\ wf_obs_d Short C05_Examples.ex_turn_short /\
+  wf_obs_d Standard C05_Examples.ex_pre /\ wf_obs_d Short C05_Examples.ex_pre.
+Proof.
+  exact (conj C05_Examples.ex_std_wf (conj C05_Examples.ex_short_wf (conj C05_Examples.ex_flop_wf
+        (conj C05_Examples.ex_turn_short_wf C05_Examples.ex_pre_wf)))).
+Qed.
+
+(* ---------- 2. the sorting permutation is one of the 24 ---------- *)
+Theorem C05_perm_in_exhaust : forall d o, wf_obs_d d o -> In (perm_of_obs d o) EXHAUST.
+Proof. exact C05_Canon.C05_perm_in_exhaust. Qed.
+Print Assumptions C05_perm_in_exhaust.
+
+(* ---------- 3. faithful: the canonical form is a relabeling of the observation ---------- *)
+Theorem C05_faithful : forall d o, wf_obs_d d o ->
+  exists p c, In p EXHAUST /\ canon d o = Some c /\ c = relabel_obs p o.
+Proof. exact C05_Canon.C05_faithful. Qed.
+Print Assumptions C05_faithful.
+
+Theorem C05_same_canon_isomorphic : forall d o1 o2, wf_obs_d d o1 -> wf_obs_d d o2 ->
+  canon d o1 = canon d o2 -> isomorphic o1 o2 = true.
+Proof. exact C05_Canon.C05_same_canon_isomorphic. Qed.
+Print Assumptions C05_same_canon_isomorphic.
+Example C05_same_canon_isomorphic_hyp :
+  wf_obs_d Standard C05_Examples.ex_std /\ wf_obs_d Standard C05_Examples.ex_std_b /\
+  canon Standard C05_Examples.ex_std = canon Standard C05_Examples.ex_std_b /\
+  canon Standard C05_Examples.ex_std <> None.
+Proof.
+  exact (conj C05_Examples.ex_std_wf (conj C05_Examples.ex_std_b_wf C05_Examples.test_super_symmetry)).
+Qed.
+
+(* ---------- 4. key completeness: lanes whose six keys tie are equal up to the suit shift ---------- *)
+Theorem C05_key_complete : forall d o s t, wf_obs_d d o -> s < 4 -> t < 4 ->
+  (forall k, k <> KSuit -> cmp_key k (colex d o s) (colex d o t) = Eq) ->
+  (forall r, N.testbit (pocket o) (4 * r + s) = N.testbit (pocket o) (4 * r + t)) /\
+  (forall r, N.testbit (public o) (4 * r + s) = N.testbit (public o) (4 * r + t)).
+Proof. exact C05_Canon.C05_key_complete. Qed.
+Print Assumptions C05_key_complete.
+Example C05_key_complete_hyp :
+  wf_obs_d Standard C05_Examples.ex_tie /\ 0 < 4 /\ 1 < 4 /\
+  (forall k, k <> KSuit ->
+     cmp_key k (colex Standard C05_Examples.ex_tie 0) (colex Standard C05_Examples.ex_tie 1) = Eq).
+Proof.
+  exact (conj C05_Examples.ex_tie_wf (conj (eq_refl : (0 ?= 4) = Lt) (conj (eq_refl : (1 ?= 4) = Lt)
+        C05_Examples.ex_tie_keys))).
+Qed.
+
+(* the same, on the lanes of Permutation::colex themselves *)
+Theorem C05_key_complete_lanes : forall d o s t, wf_obs_d d o -> s < 4 -> t < 4 ->
+  (forall k, k <> KSuit -> cmp_key k (colex d o s) (colex d o t) = Eq) ->
+  N.shiftl (lpocket (colex d o s)) t = N.shiftl (lpocket (colex d o t)) s /\
+  N.shiftl (lpublic (colex d o s)) t = N.shiftl (lpublic (colex d o t)) s.
+Proof. exact C05_Canon.C05_key_complete_lanes. Qed.
+Print Assumptions C05_key_complete_lanes.
+
+(* ---------- 5. invariance: relabeled observations have the same canonical form ---------- *)
+Theorem C05_invariant : forall d p o, In p EXHAUST -> wf_obs_d d o ->
+  canon d (relabel_obs p o) = canon d o.
+Proof. exact C05_Canon.C05_invariant. Qed.
+Print Assumptions C05_invariant.
+
+Theorem C05_invariant_permute : forall d p o o', In p EXHAUST -> wf_obs_d d o ->
+  permute d p o = Some o' -> canon d o' = canon d o.
+Proof. exact C05_Canon.C05_invariant_permute. Qed.
+Print Assumptions C05_invariant_permute.
+Example C05_invariant_permute_hyp :
+  permute Standard C05_Examples.ex_perm C05_Examples.ex_std
+  = Some (relabel_obs C05_Examples.ex_perm C05_Examples.ex_std).
+Proof. exact C05_Examples.ex_permute. Qed.
+
+Theorem C05_isomorphic_iff_same_canon : forall d o1 o2, wf_obs_d d o1 -> wf_obs_d d o2 ->
+  (isomorphic o1 o2 = true <-> canon d o1 = canon d o2).
+Proof. exact C05_Canon.C05_isomorphic_iff_same_canon. Qed.
+Print Assumptions C05_isomorphic_iff_same_canon.
+Example C05_isomorphic_hyp : isomorphic C05_Examples.ex_std C05_Examples.ex_std_b = true.
+Proof. exact C05_Examples.ex_isomorphic. Qed.
+
+(* ---------- 6. idempotence and is_canonical ---------- *)
+Theorem C05_idem : forall d o c, wf_obs_d d o -> canon d o = Some c ->
+  canon d c = Some c /\ is_canonical d c = true.
+Proof. exact C05_Canon.C05_idem. Qed.
+Print Assumptions C05_idem.
+Example C05_idem_hyp :
+  canon Standard C05_Examples.ex_std
+    = Some (relabel_obs (perm_of_obs Standard C05_Examples.ex_std) C05_Examples.ex_std) /\
+  canon Standard C05_Examples.ex_std <> Some C05_Examples.ex_std /\
+  perm_of_obs Standard C05_Examples.ex_std = [2; 0; 1; 3].
+Proof. exact C05_Examples.ex_std_canon. Qed.
+
+Theorem C05_is_canonical_iff : forall d o, wf_obs_d d o ->
+  (is_canonical d o = true <-> canon d o = Some o).
+Proof. exact C05_Canon.C05_is_canonical_iff. Qed.
+Print Assumptions C05_is_canonical_iff.
+Example C05_is_canonical_hyp :
+  wf_obs_d Standard C05_Examples.ex_canonical /\ is_canonical Standard C05_Examples.ex_canonical = true /\
+  canon Standard C05_Examples.ex_std = Some C05_Examples.ex_canonical.
+Proof. exact C05_Examples.ex_canonical_ok. Qed.
+
+(* ---------- 7. instances asserted by the Rust unit tests ---------- *)
+Theorem C05_test_super_symmetry :
+  canon Standard C05_Examples.ex_std = canon Standard C05_Examples.ex_std_b /\
+  canon Standard C05_Examples.ex_std <> None.
+Proof. exact C05_Examples.test_super_symmetry. Qed.
+Print Assumptions C05_test_super_symmetry.
+
+Theorem C05_test_symmetries :
+  (canon Standard C05_Examples.t_prs_a = canon Standard C05_Examples.t_prs_b /\
+   canon Standard C05_Examples.t_prs_a <> None) /\
+  (canon Standard C05_Examples.t_pub_a = canon Standard C05_Examples.t_pub_b /\
+   canon Standard C05_Examples.t_pub_a <> None) /\
+  (canon Standard C05_Examples.t_obd_a = canon Standard C05_Examples.t_obd_b /\
+   canon Standard C05_Examples.t_obd_a <> None) /\
+  (canon Standard C05_Examples.t_odr_a = canon Standard C05_Examples.t_odr_b /\
+   canon Standard C05_Examples.t_odr_a <> None) /\
+  (canon Standard C05_Examples.t_anti_a = canon Standard C05_Examples.t_anti_b /\
+   canon Standard C05_Examples.t_anti_a <> None) /\
+  (canon Standard C05_Examples.t_semi_a = canon Standard C05_Examples.t_semi_b /\
+   canon Standard C05_Examples.t_semi_a <> None) /\
+  (canon Standard C05_Examples.t_mono_a = canon Standard C05_Examples.t_mono_b /\
+   canon Standard C05_Examples.t_mono_a <> None) /\
+  (canon Short C05_Examples.t_mono_a = canon Short C05_Examples.t_mono_b /\
+   canon Short C05_Examples.t_mono_a <> None).
+Proof.
+  exact (conj C05_Examples.test_pocket_rank_symmetry (conj C05_Examples.test_public_rank_symmetry
+        (conj C05_Examples.test_offsuit_backdoor (conj C05_Examples.test_offsuit_draw
+        (conj C05_Examples.test_antichrome (conj C05_Examples.test_semichrome
+        C05_Examples.test_monochrome)))))).
+Qed.
+Print Assumptions C05_test_symmetries.
+
+Theorem C05_test_false_positives :
+  forallb (fun p => match permute Standard p C05_Examples.ex_std with
+                    | Some o => match canon Standard o, canon Standard C05_Examples.ex_std with
+                                | Some x, Some y => obs_eqb x y | _, _ => false end
+                    | None => false end) EXHAUST = true /\
+  forallb (fun p => match permute Short p C05_Examples.ex_short with
+                    | Some o => match canon Short o, canon Short C05_Examples.ex_short with
                                 | Some x, Some y => obs_eqb x y | _, _ => false end
                     | None => false end) EXHAUST = true.
-Proof. vm_compute. repeat split; try reflexivity; discriminate. Qed.
-Print Assumptions C05_super_symmetry_instance.
+Proof. exact C05_Examples.test_false_positives. Qed.
+Print Assumptions C05_test_false_positives.
